@@ -536,6 +536,7 @@ class Configuration(_Configuration):
         self.parser.index_line = line
 
     def _commit_reload(self) -> None:
+        self.neighbor.commit()
         self.neighbors = self.neighbor.neighbors
         # Process change detection is handled in Processes.start() which compares
         # old vs new config and only restarts processes that actually changed.
